@@ -148,6 +148,8 @@ class Translator:
             raise Untranslatable("comparison %s" % norm_src(e))
         if isinstance(e, (ast.List, ast.Tuple)):
             return opaque("LIST", *[self.tr(x) for x in e.elts])
+        if isinstance(e, (ast.ListComp, ast.GeneratorExp, ast.SetComp, ast.DictComp, ast.Dict, ast.Lambda)):
+            return sp.Symbol("OPAQUE_%s_%d" % (type(e).__name__, abs(hash(norm_src(e))) % 100000))
         raise Untranslatable("expression %s" % type(e).__name__)
 
     def call(self, e):
